@@ -793,6 +793,14 @@ def _tot_lines():
             for c in _TOT_SMALL:
                 add(a + ' ' + b + ' ' + c)
                 add(a + b + c)
+    # number-lexer adjacency: fragments glued without spaces
+    frag = ['1', '0', 'e', 'E', '_', '\u2009', '.', '-', '+', '0x', 'f', 'x', '0b', '0o', '9', 'e1', '%', '\\u', '{', '}', "'", '"']
+    for a in frag:
+        for b in frag:
+            add(a + b)
+            for c in frag:
+                add(a + b + c)
+                add('1' + a + b + c)
     # depth probes within one chat message
     for tok, n in (('-', 200), ('(', 120), ('%', 200), ('+', 200), ('sqrt ', 90), ('1^', 120), ('m ', 200), ('1|', 150), ('- -', 150)):
         add(tok * n + '1')
@@ -805,7 +813,7 @@ def _tot_run(lines, timeout):
     return rc, so, se
 
 
-def _tot_find(lines, timeout=120):
+def _tot_find(lines, timeout=40):
     """-> (line, what) for the first line that panics / aborts / hangs, else None"""
     rc, so, se = _tot_run(lines, timeout)
     if rc == 0:
@@ -818,17 +826,16 @@ def _tot_find(lines, timeout=120):
             elif l.startswith('PANIC') and cur is not None:
                 return (cur, l)
     if len(lines) == 1:
-        what = 'TIMEOUT after %ds' % timeout if rc == 124 else 'process died with status %s: %s' % (rc, one_line(se, 200))
+        what = 'does not answer within %d s (hang or runaway computation)' % timeout if rc == 124 else 'process died with status %s: %s' % (rc, one_line(se, 200))
         return (lines[0], what)
-    mid = len(lines) // 2
-    r = _tot_find(lines[:mid], timeout)
-    if r:
-        return r
-    # a failure that needs the history of the first half: keep it
-    r = _tot_find(lines[mid:], timeout)
-    if r:
-        return r
-    return (' || '.join(lines[:3]) + ' ...', 'a history of %d lines fails (status %s) but neither half does' % (len(lines), rc))
+    # a batch that hangs or dies: every line on its own, in parallel, short timeout
+    from concurrent.futures import ThreadPoolExecutor as _TPE
+    with _TPE(max_workers=16) as ex:
+        rs = list(ex.map(lambda l: _tot_find([l], 10), lines))
+    for r in rs:
+        if r:
+            return r
+    return (' || '.join(lines[:3]) + ' ...', 'a history of %d lines fails (status %s) but no single line does' % (len(lines), rc))
 
 
 def _totality_witness():
@@ -836,13 +843,25 @@ def _totality_witness():
         return None
     lines = _tot_lines()
     B = 400
-    from concurrent.futures import ThreadPoolExecutor as _TPE
+    from concurrent.futures import ThreadPoolExecutor as _TPE, as_completed as _asc
     batches = [lines[i:i + B] for i in range(0, len(lines), B)]
-    with _TPE(max_workers=12) as ex:
-        for r in ex.map(_tot_find, batches):
+    found = None
+    ex = _TPE(max_workers=12)
+    futs = [ex.submit(_tot_find, b) for b in batches]
+    try:
+        for f in _asc(futs):
+            r = f.result()
             if r:
-                return {'replayer': 'totality', 'input': {'query': r[0], 'expected': 'a reply or an error value'}, 'output': r[1],
-                        'why': 'the line %r makes the real evaluator %s' % (r[0], r[1]), 'cmd': '%s %r' % (QUERY_BIN, r[0])}
+                found = r
+                break
+    finally:
+        for f in futs:
+            f.cancel()
+        ex.shutdown(wait=True)
+    if found:
+        r = found
+        return {'replayer': 'totality', 'input': {'query': r[0], 'expected': 'a reply or an error value'}, 'output': r[1],
+                'why': 'the line %r makes the real evaluator: %s' % (r[0], r[1]), 'cmd': '%s %r' % (QUERY_BIN, r[0])}
     return None
 
 
